@@ -194,7 +194,9 @@ class Flow:
             blockers = set()
             if need_release:
                 for nid, evs in self.pair_calls.items():
-                    rels = {acq for kind, acq, _ in evs if kind == 'rel'}
+                    # on a failure path nothing is known about how far the protected region got: only the complete form of a release
+                    # (no narrowing arguments) is a release there
+                    rels = {acq for kind, acq, c in evs if kind == 'rel' and len(c.args) <= 1 and not c.keywords}
                     if need_release <= rels:
                         blockers.add(nid)
             reach = cfg.reachable(s, lambda nn, l2, s2: nn.id not in blockers) | {s}
